@@ -82,3 +82,55 @@ def model_check_ledger(slice_, maxtx, mode, schedset, timeout=3000):
     if never:
         raise common.MachineryError(f"vacuity: actions never taken in MC_Ledger {slice_}/{maxtx}: {never}")
     return res
+
+
+def model_check_engine(maxtx, scheds, timeout=3000):
+    """TLC on Rp2Engine (the matching algorithm as implemented): invariants on its output over every valid history of the bound, the
+    sensitivity control (the repaired defect must be refuted), and the finished runs it printed (history, schedule, output)."""
+    invs = "INVARIANT PickInv\nINVARIANT NoSpuriousFail\nINVARIANT EventsCovered\nINVARIANT HeapComplete\nPROPERTY AppendOnly\n"
+    cfg = _write_cfg(f"eng_{maxtx}_{scheds}.cfg", f'CONSTANTS MaxTx = {maxtx} Repush = "always" Scheds = "{scheds}"\nINIT Init\nNEXT Next\n{invs}CHECK_DEADLOCK FALSE\n')
+    rc, out = tlc.run_tlc("Rp2Engine.tla", cfg, workers=common.NCPU, tag="engine", heap="8g", timeout=timeout)   # (no -coverage: its accounting of the recursive seeks exhausts the heap)
+    # the finished runs are printed by a second pass without coverage accounting (one bound lower in thorough: the output is large)
+    emit_tx = min(maxtx, 3) if scheds == "pairs" else maxtx
+    cfg_e = _write_cfg(f"eng_{maxtx}_{scheds}_emit.cfg", f'CONSTANTS MaxTx = {emit_tx} Repush = "always" Scheds = "{scheds}"\nINIT Init\nNEXT Next\nINVARIANT Emit\nCHECK_DEADLOCK FALSE\n')
+    rc_e, out_e = tlc.run_tlc("Rp2Engine.tla", cfg_e, workers=common.NCPU, tag="engineemit", heap="8g", timeout=timeout)
+    runs = []
+    for line in out_e.splitlines():
+        s = line.strip()
+        if s.startswith('"E|') and s.endswith('"'):
+            runs.append(json.loads(s[3:-1].replace('\\"', '"')))
+    if rc_e != 0 and not runs:
+        raise common.MachineryError("Rp2Engine emission failed: " + out_e[-1500:])
+    gen_, dist = tlc.parse_stats(out)
+    res = {"module": "Rp2Engine", "maxtx": maxtx, "scheds": scheds, "states": dist, "transitions": gen_, "finished_runs_printed": len(runs)}
+    if "is violated" in out:
+        res["violation"] = [l for l in out.splitlines() if "is violated" in l][0]
+        res["counterexample"] = "\n".join(l for l in out.split("The coverage statistics")[0].splitlines() if "CostModel" not in l)[-5000:]
+        return res, runs
+    if tlc.tlc_failed(rc, out.replace("CostModel lookup failed", "")) or dist == 0 or not runs:
+        raise common.MachineryError(f"model checking Rp2Engine failed (rc={rc}):\n" + "\n".join(l for l in out.splitlines() if "CostModel" not in l)[-3000:])
+    if not any(r["pc"] == "done" and len(r["out"]) >= 2 for r in runs):
+        raise common.MachineryError("vacuity: Rp2Engine finished no run with several fractions")
+    cfg2 = _write_cfg(f"eng_{maxtx}_ctl.cfg", f'CONSTANTS MaxTx = {max(3, maxtx)} Repush = "if_larger" Scheds = "single"\nINIT Init\nNEXT Next\n{invs}CHECK_DEADLOCK FALSE\n')
+    _rc2, out2 = tlc.run_tlc("Rp2Engine.tla", cfg2, workers=common.NCPU, tag="enginectl", heap="8g", timeout=timeout)
+    res["repaired_defect_refuted"] = "is violated" in out2
+    if not res["repaired_defect_refuted"]:
+        raise common.MachineryError("vacuity: Rp2Engine accepts the conditional re-push (the defect repaired by 0041f1c)")
+    return res, runs
+
+
+_ENG_DAY = {1: 363, 2: 364, 3: 366}
+
+
+def engine_job(run):
+    """a finished run of Rp2Engine as a job for the real rp2: the same history under the same schedule"""
+    h = []
+    for x in run["h"]:
+        cls, typ = ("out", "sell") if x["k"] == "out" else ("in", "buy" if x["k"] == "buy" else "interest")
+        h.append({"cls": cls, "type": typ, "t": _ENG_DAY[x["t"]] * 86400 + 43200, "off": 0, "a1": 11, "a2": 0, "amt": x["amt"], "fee": 0, "price": x["p"], "ffee": 0,
+                  "vin": -1, "vwf": -1, "vout": -1, "vfee": -1, "par": 0})
+    sched = [[1970, run["m1"]]] + ([[2020, run["m2"]]] if run["m2"] != run["m1"] else [])
+    lots = [p + 1 for p, x in enumerate(run["h"]) if x["k"] != "out"]
+    expected = [[f["ev"], lots[f["lot"] - 1] if f["lot"] else 0, f["amt"]] for f in run["out"]]
+    return {"h": h, "c": {"country": "us", "ltcg": 0, "sched": sched, "neg": False}, "conc": {"U": "1", "P": "1", "rows": list(range(2, 2 + len(h))), "mode": "api"},
+            "runs": [{"k": len(h), "from": common.MIN_DAY, "to": common.MAX_DAY, "neg": False}], "tag": "engine", "engine_expected": {"out": expected, "pc": run["pc"]}}
